@@ -139,7 +139,7 @@ def run(ctx):
     two = gi.holds_at_exit(norm.mk_cmp("==", "2", f"{ini.params()[0]}.executor.num_pools"))
     ctx.ob(2, "K2", "the scheduler refuses to start unless there are exactly two pools", two, ini, ini.node, construct="assert num_pools == 2", detail=f"holds at exit of init: {two}")
     # (3) every Assignment
-    sites = [c for fn_, c in sched.assignment_sites(P, f) if fn_.node is f.node]
+    sites = [c for fn_, c in sched.assignment_sites(P, f) if same_fn(fn_, f)]
     ctx.count_min("Assignment( sites in priority-pool", len(sites), 3)
     for c in sites:
         jl = enclosing_for(c, f.node)
